@@ -85,7 +85,7 @@ def tb_text(exc, limit=12):
     return ''.join(traceback.format_exception(type(exc), exc, exc.__traceback__, limit=-limit))
 
 
-SCRUB_TEXT = '<x-scrub>\n\n# s\n\n```\n```\n\ns\n'
+SCRUB_TEXT = '<x-scrub>\n\n<div>\n\n# s\n\n```\n```\n\ns\n'
 
 
 def scrub():
